@@ -208,6 +208,9 @@ func CombinationIndex(comb []int, n, k int) int {
 	}
 	contains := make(map[int]struct{}, k)
 	for _, v := range comb {
+		if v < 0 || n <= v {
+			panic("combin: bad element")
+		}
 		contains[v] = struct{}{}
 	}
 	if len(contains) != k {
